@@ -10,7 +10,7 @@ use std::os::unix::fs::MetadataExt;
 
 pub static DEF: PropDef = PropDef {
     id: "C13",
-    rule: "random: one directory holding every creatable type (regular empty/non-empty, directory empty/non-empty, fifo, socket, hard-linked pair, symlinks to each of those, dangling link), each with a random 12-bit mode and uid/gid from {0,1,65534,54321} (lchown for links) x follow mode x {entries as starting points (depth 0), one level down} x ~14 tests per tree drawn from -type/-xtype t, -perm M|-M|/M in octal and six symbolic spellings (per-class '=', additive chains, who-less clauses, subtractive 'a=rwx,o-w', copying 'g=u,o=g', overriding 'a=rwx,u=..'; s/t bits), -links/-inum/-uid/-gid [+-]N around real values, -user/-group by name and number, -empty, -samefile F for every F, -lname. Oracle: predicate over lstat/stat records chosen per the statement. Exhaustive -perm sub-run: a directory of 4096 regular files, one per permission value; each operand is evaluated against ALL modes (operands: 300 random x 3 forms in quick, all 4096 x 3 in thorough), octal and symbolic spellings must select identical sets. Non-trivial = the entry set contains a link whose lstat and stat records differ in the tested attribute and the test is evaluated on it (always true for the generated directory), and >= 1 entry is selected and >= 1 rejected. Distinct = distinct case JSON.",
+    rule: "random: one directory holding every creatable type (regular empty/non-empty, directory empty/non-empty, fifo, socket, hard-linked pair, symlinks to each of those, dangling link), each with a random 12-bit mode and uid/gid from {0,1,65534,54321} (lchown for links) x follow mode x {entries as starting points (depth 0), one level down} x ~14 tests per tree drawn from -type/-xtype t, -perm M|-M|/M in octal and six symbolic spellings (per-class '=', additive chains, who-less clauses, subtractive 'a=rwx,o-w', copying 'g=u,o=g', overriding 'a=rwx,u=..'; s/t bits; conditional 'X' as in a+X, u=rwX, u+x,go+X), -links/-inum/-uid/-gid [+-]N around real values, -user/-group by name and number, -empty, -samefile F for every F, -lname. Oracle: predicate over lstat/stat records chosen per the statement. Exhaustive -perm sub-run: a directory of 4096 regular files, one per permission value; each operand is evaluated against ALL modes (operands: 300 random x 3 forms in quick, all 4096 x 3 in thorough), octal and symbolic spellings must select identical sets. Non-trivial = the entry set contains a link whose lstat and stat records differ in the tested attribute and the test is evaluated on it (always true for the generated directory), and >= 1 entry is selected and >= 1 rejected. Distinct = distinct case JSON.",
     assumptions: &["the harness runs as root (chmod keeps all twelve bits, chown to ids without passwd entries works)", "who-less symbolic clauses (=rx, +x) mean 'a' - the process umask is not consulted (POSIX find / GNU find)"],
     run,
     replay,
@@ -198,8 +198,10 @@ pub fn gen_case(g: &mut Gen) -> Case {
                     _ => g.below(0o10000) as u32,
                 };
                 let prefix = g.pick(&["", "-", "/"]);
-                let text = match g.below(7) {
+                let text = match g.below(8) {
                     0 => format!("{m:o}"),
+                    // 'X': execute/search only for directories, or where an execute bit is already set
+                    7 => g.pick(&["a+X", "a=X", "u=rwX", "u+x,go+X", "a=r,a+X", "go=X", "u=rw,a+X", "a=rX"]).to_string(),
                     k => symbolic(m, (k - 1) as u8),
                 };
                 vec![s("-perm"), format!("{prefix}{text}")]
@@ -253,8 +255,9 @@ fn has_passwd(id: u32) -> bool {
 /// the parsed numeric value of a -perm operand generated above
 /// Reference evaluation of a MODE operand: octal, or chmod-style symbolic clauses applied in
 /// sequence to an initial mode of 0 (who-less clauses mean 'a'; '=' replaces the named classes'
-/// bits, '+' adds, '-' removes; a permission of u/g/o copies that class's current rwx bits).
-fn perm_value(text: &str) -> u32 {
+/// bits, '+' adds, '-' removes; a permission of u/g/o copies that class's current rwx bits; 'X' is 'x' for
+/// a directory or once the value built so far has an execute bit).
+fn perm_value(text: &str, is_dir: bool) -> u32 {
     if text.chars().next().map_or(false, |c| c.is_ascii_digit()) {
         return u32::from_str_radix(text, 8).unwrap();
     }
@@ -277,6 +280,7 @@ fn perm_value(text: &str) -> u32 {
                     'r' => 4 << sh,
                     'w' => 2 << sh,
                     'x' => 1 << sh,
+                    'X' if is_dir || m & 0o111 != 0 => 1 << sh,
                     's' if w != 'o' => sp,
                     't' if w == 'o' => sp,
                     'u' => ((m >> 6) & 7) << sh,
@@ -312,7 +316,7 @@ fn predicate(t: &[String], e: &RefEntry, fm: FollowMode) -> bool {
                 Some('/') => ('/', &t[1][1..]),
                 _ => ('=', t[1].as_str()),
             };
-            let m = perm_value(text);
+            let m = perm_value(text, rec.is_dir());
             let v = rec.mode() & 0o7777;
             match form {
                 '-' => v & m == m,
